@@ -49,6 +49,9 @@ type Plan struct {
 	// StoreFault: before that, one store of the session fails (disk full) while a salt is saved, and the same salt is
 	// announced again afterwards
 	StoreFault bool `json:",omitempty"`
+	// Rejections > 0: after the rotations one more request is issued while the server goes through salts quickly: the
+	// request and each of its re-sent copies arrive just after their salt was retired, Rejections times in a row
+	Rejections int `json:",omitempty"`
 }
 
 type Rotation struct {
@@ -144,6 +147,12 @@ func build(src scen.Source, keys []refsrv.RSAKeyJSON, p Plan) (*scen.Scenario, e
 		steps = append(steps, scen.Step{Op: "answer", Items: []scen.AnsItem{{Tag: tg}}})
 	}
 	steps = append(steps, scen.Step{Op: "await-calls"}, scen.Step{Op: "probe"})
+	if p.Rejections > 0 {
+		steps = append(steps, scen.Step{Op: "rotate-rolling", N: p.Rejections})
+		newCalls(1)
+		steps = append(steps, scen.Step{Op: "await-requests", N: 1}, scen.Step{Op: "session-snapshot", Salt: salts(len(p.Rotations)-1) + int64(p.Rejections)},
+			scen.Step{Op: "answer", Items: []scen.AnsItem{{Tag: tag - 1}}}, scen.Step{Op: "await-calls"}, scen.Step{Op: "probe"})
+	}
 	if p.StoreFault {
 		// the disk is full while a salt announced by new_session_created is saved (the client can only warn); when the
 		// server names the same salt again in a rejection and the disk has room again, the store must get it
@@ -332,6 +341,12 @@ func classes(p Plan) ([]string, bool) {
 	if p.StoreFault {
 		cls = append(cls, "store-fails-once-then-same-salt-again")
 	}
+	if p.Rejections > 0 {
+		cls = append(cls, "same-request-rejected-several-times-in-a-row", fmt.Sprintf("same-request-rejected:%dx", p.Rejections))
+	}
+	if p.Rejections >= 4 {
+		cls = append(cls, "same-request-rejected>=4-times-in-a-row")
+	}
 	cls = append(cls, fmt.Sprintf("rotations=%d", len(p.Rotations)))
 	if len(p.Rotations) >= 2 {
 		cls = append(cls, "second-rotation")
@@ -395,6 +410,9 @@ func genPlan(t *rapid.T) Plan {
 	}
 	p.AckRejected = rapid.IntRange(0, 2).Draw(t, "ackrejected") == 0
 	p.StoreFault = rapid.IntRange(0, 3).Draw(t, "storefault") == 0
+	if rapid.IntRange(0, 2).Draw(t, "rolling") == 0 {
+		p.Rejections = rapid.SampledFrom([]int{2, 3, 4, 5, 8, 12}).Draw(t, "rejections")
+	}
 	if p.AckRejected && rapid.Bool().Draw(t, "burst") {
 		p.Burst = rapid.IntRange(2, 6).Draw(t, "nburst")
 	}
